@@ -938,6 +938,27 @@ func runC11(cx *Ctx, r *Report) {
 						cx.nd6(r, kc, f, reach, x.Pos(), d, nil, mod)
 					}
 				case *ssa.Call:
+					// ND6 through an address: a package variable handed by address to a callee
+					// (a pointer-receiver method called on the variable) that writes through it
+					if cc := x.Common(); !cc.IsInvoke() {
+						if g := cc.StaticCallee(); g != nil && g.Blocks != nil && isIrismodFunc(g) {
+							for i, a := range cc.Args {
+								if _, isPtr := a.Type().Underlying().(*types.Pointer); !isPtr {
+									continue
+								}
+								if _, isLoad := a.(*ssa.UnOp); isLoad {
+									continue // a pointer VALUE kept in a variable, not the variable's address
+								}
+								gv := globalBase(a)
+								if gv == nil || gv.Pkg == nil || gv.Pkg.Pkg == nil || !strings.HasPrefix(gv.Pkg.Pkg.Path(), modPrefix) {
+									continue
+								}
+								if at := writesThroughParam(g, i, 0, map[*ssa.Function]bool{}); at != nil {
+									cx.nd6(r, kc, f, reach, x.Pos(), "package variable "+gv.Name()+" (written through its address by "+shortFn(g)+" at "+cx.P.Pos(at.Pos())+")", nil, mod)
+								}
+							}
+						}
+					}
 					// ND8: arithmetic that overwrites its receiver (LegacyDec.*Mut, big.Int setters)
 					// applied to a value this function did not create: math.Int / LegacyDec / Coin
 					// copies share one *big.Int, so the owner of the value - a keeper-held registry,
@@ -1730,4 +1751,53 @@ func (cx *Ctx) sharedNumberRule(r *Report, mods []string, rule string) int {
 	}
 	r.ok(rule, "scan", "", fmt.Sprintf("%d receiver-overwriting arithmetic calls in modules %v, each on a number created in the same function", n, mods))
 	return n
+}
+
+// writesThroughParam: g stores through its pointer parameter i (a field, an element, the
+// whole pointee), itself or in an irismod callee it hands the pointer to; the store.
+func writesThroughParam(g *ssa.Function, i int, depth int, seen map[*ssa.Function]bool) ssa.Instruction {
+	if g == nil || g.Blocks == nil || i >= len(g.Params) || depth > 4 || seen[g] {
+		return nil
+	}
+	seen[g] = true
+	var visit func(v ssa.Value, d int) ssa.Instruction
+	visit = func(v ssa.Value, d int) ssa.Instruction {
+		if d > 6 || v.Referrers() == nil {
+			return nil
+		}
+		for _, r := range *v.Referrers() {
+			switch y := r.(type) {
+			case *ssa.Store:
+				if y.Addr == v {
+					return y
+				}
+			case *ssa.FieldAddr:
+				if at := visit(y, d+1); at != nil {
+					return at
+				}
+			case *ssa.IndexAddr:
+				if at := visit(y, d+1); at != nil {
+					return at
+				}
+			case *ssa.Call:
+				cc := y.Common()
+				if cc.IsInvoke() {
+					continue
+				}
+				h := cc.StaticCallee()
+				if h == nil || !isIrismodFunc(h) {
+					continue
+				}
+				for j, a := range cc.Args {
+					if a == v {
+						if at := writesThroughParam(h, j, depth+1, seen); at != nil {
+							return at
+						}
+					}
+				}
+			}
+		}
+		return nil
+	}
+	return visit(g.Params[i], 0)
 }
